@@ -275,7 +275,8 @@ struct ParJob : public PerEntityJob<ParJob> {
     EntityManager* em = nullptr;
     std::map<uint64_t, size_t>* ordinal_of = nullptr;
     std::mutex m;
-    std::map<uint32_t, std::vector<RecOp>> log;     // thread id -> program order
+    std::vector<std::vector<RecOp>> log;            // thread id -> program order; sized before the run, no locking:
+                                                    // a dispatcher thread id runs one task at a time
     uint64_t tok_base = 0;
     uint32_t creates = 0;                           // > 0: every visited entity only creates that many entities
     TasksCount taskCount(World&, uint32_t) const noexcept override { return TasksCount::make(tasks); }
@@ -284,7 +285,6 @@ struct ParJob : public PerEntityJob<ParJob> {
             ComponentIdMask mask; mask.add(ComponentFactory::instance().registerComponent<E>());
             for (uint32_t k = 0; k < creates; ++k) {
                 Entity n = em->create(mask, SharedComponentsInfo{});
-                std::lock_guard<std::mutex> l{m};
                 log[idx.thread_id.toInt()].push_back(RecOp{0, 0, n.value, 0});
             }
             return;
@@ -305,7 +305,6 @@ struct ParJob : public PerEntityJob<ParJob> {
             default: break;
         }
         if (r.kind != 3) {
-            std::lock_guard<std::mutex> l{m};
             log[idx.thread_id.toInt()].push_back(r);
         }
     }
@@ -686,13 +685,15 @@ struct Driver {
             if (x.rfind("tok=", 0) == 0) job.tok_base = std::stoull(x.substr(4));
             if (x.rfind("creates=", 0) == 0) job.creates = static_cast<uint32_t>(std::stoul(x.substr(8)));
         }
+        job.log.assign(dispatcher->threadCount() + 1, {});
         job.run(*world, JobRunMode::kParallel);
         out << "ok\n";                                   // the job's lock
         std::map<uint32_t, size_t> pos;
         while (true) {
             // any thread whose next op is not a create goes first; otherwise the create with the smallest id
             int pick = -1; uint64_t best = ~0ull;
-            for (auto& [tid, v] : job.log) {
+            for (uint32_t tid = 0; tid < job.log.size(); ++tid) {
+                auto& v = job.log[tid];
                 size_t i = pos[tid];
                 if (i >= v.size()) continue;
                 if (v[i].kind != 0) { pick = static_cast<int>(tid); break; }
